@@ -1498,7 +1498,7 @@ func c14RunFree(t *testing.T, w *c14Writer, id int, tmp string, rng *rand.Rand) 
 	tick := time.NewTicker(3 * time.Millisecond)
 	defer tick.Stop()
 	var end c14End
-	nadv, ncome := 0, 0
+	nadv, ncome, nresc := 0, 0, 0
 loop:
 	for {
 		select {
@@ -1517,8 +1517,9 @@ loop:
 			r.mtx.Unlock()
 			if ab {
 				if cur := r.curSnap(); cur.N > 0 {
+					nresc++
 					for i := 0; i < cur.N; i++ {
-						r.deliver("pZ", cur.H, cur.F, i)
+						r.deliver("pR"+strconv.Itoa(nresc%50), cur.H, cur.F, i)
 					}
 				}
 			} else if nadv < 6 && drng.Intn(40) == 0 {
